@@ -122,6 +122,8 @@ def check_case(acc, pendulum, zname, inst, kw, variants=True):
         ops.append(("plus_td", lambda: x + td, target))
         ops.append(("subtract_neg", lambda: x.subtract(**{k: -v for k, v in kw.items()}), target))
         ops.append(("minus_td", lambda: x - dt_.timedelta(**{k: -v for k, v in kw.items()}), target))
+        ops.append(("td_plus", lambda: td + x, target))                         # reflected operand order
+        ops.append(("duration_plus", lambda: pendulum.duration(**kw) + x, target))
     first = None
     for name, fn, tgt in ops:
         r = fn()
